@@ -603,7 +603,7 @@ func (d *drv) replay() error {
 		}
 		d.rep.Failures = keep
 		d.cases = nil
-	case "path", "path-string", "path-index", "slot-path", "ser-attr":
+	case "path", "path-string", "path-index", "slot-path", "ser-attr", "degenerate-path", "degenerate-slot-path":
 		d.pathStream()
 	case "raw-decode":
 		var in rawInput
